@@ -13,6 +13,27 @@ from pathlib import Path
 
 def main():
     job = json.loads(sys.argv[1])
+    if job.get("fault"):
+        # real process death at a mutation tick: only the I/O accounting layer of the
+        # simulator is loaded (no SimSet, no clock/uuid/git/Live stubs); when the tick is
+        # reached the process dies with os._exit, so nothing buffered is flushed and no
+        # finally / with-exit code runs
+        import builtins, io, os
+        sys.path.insert(0, os.path.dirname(os.path.dirname(os.path.abspath(__file__))))
+        from sim import seams
+        io.open = seams.sim_open
+        builtins.open = seams.sim_open
+        os.mkdir = seams.sim_mkdir
+        os.replace = seams.sim_replace
+        os.rename = seams.sim_rename
+        os.unlink = seams.sim_unlink
+        os.remove = seams.sim_remove
+        seams.CTX.active = True
+        seams.CTX.io_root = job["io_root"]
+        seams.CTX.io_plan = dict(job["fault"], kind="crash")
+        _crash = seams.SimCrash
+    else:
+        _crash = ()
     import click
     import codelimit.__main__ as cli
     from codelimit.common.report.ReportFormat import ReportFormat
@@ -28,6 +49,9 @@ def main():
             cli.findings(path=Path(job["path"]), full=job.get("full", False), fmt=ReportFormat(job.get("fmt", "text")))
     except click.exceptions.Exit as e:
         sys.exit(e.exit_code)
+    except _crash:
+        import os
+        os._exit(137)
 
 
 if __name__ == "__main__":
